@@ -303,3 +303,27 @@ func H_C20_kmeans_finite() {
 	}
 	vCover("ran")
 }
+
+func init() { vHarnesses["H_C20_nearest"] = H_C20_nearest }
+
+// the assignment kernel of k-means (and of IVF / IVFPQ Add): for any vector and 1..3 centroids (all
+// float32, no NaN distances) the index returned is in range and no centroid is strictly nearer.
+func H_C20_nearest() {
+	dist, _ := NewDistance(vMetrics[vChoose("metric", 3)])
+	k := 1 + vChoose("k", 3)
+	d := 1 + vChoose("dim", 2)
+	v := vVec("v", d)
+	cents := make([][]float32, k)
+	for i := range cents {
+		cents[i] = vVec(vName("c", i), d)
+	}
+	r := FindNearestCentroidIndex(v, cents, dist)
+	vAssert(r >= 0 && r < k, "nearest-in-range")
+	dr := dist.Calculate(v, cents[r])
+	for j := range cents {
+		dj := dist.Calculate(v, cents[j])
+		vAssume(dj == dj) // NaN distances (overflowing components) are outside the claim
+		vAssert(!(dj < dr), "nearest-has-no-strictly-nearer-centroid")
+	}
+	vCover("ran")
+}
